@@ -146,7 +146,7 @@ def run(ctx):
                 lib.write_ndjson(rp, out)
                 last = recs[newbad[0] - 1]
                 brief = {k: v for k, v in last.items() if not isinstance(v, list) or len(v) < 40}
-                c0 = [x for x in out if x["e"] == "Config"]
+                c0 = [x for x in recs[:newbad[0]] if x["e"] == "Config"]
                 ctx.violation("%d recorded lines not explained by %s, first: %s%s" % (
                     len(newbad), module, json.dumps(brief)[:300], (" in " + json.dumps({k: c0[-1][k] for k in ("kind", "views", "maxSeg", "eff")})) if c0 else ""), rp)
     # ------------------------------------------------------------------ 4. vacuity guards on recorded traces
